@@ -98,6 +98,37 @@ def s_never_in_neither(root, obs):
     return errs
 
 
+def s_removal_matrix(ctx, vh):
+    """property x constant value, well typed or not (a string for a font, a number for a rectangle, ...), one binding per document, against the SAME
+    document without it: an accepted binding that changes neither output and draws no diagnostic was consumed silently"""
+    props = [("QLabel", p) for p in ("text", "font", "locale", "geometry", "sizePolicy", "palette", "cursor", "pixmap", "alignment", "wordWrap", "indent", "minimumSize", "styleSheet", "toolTip")] + \
+            [("QWidget", p) for p in ("windowIcon", "windowTitle", "font", "palette.active", "palette.window", "contentsMargins", "layoutDirection", "focusPolicy", "enabled")] + \
+            [("QPushButton", p) for p in ("icon", "iconSize", "shortcut", "checkable", "text", "font.family", "font.pointSize")] + \
+            [("QAction", p) for p in ("icon", "shortcut", "text", "checkable", "data")] + [("QSpinBox", p) for p in ("value", "maximum", "prefix", "specialValueText")]
+    values = ['"Monospace"', "1", "true", "2.5", '["a", "b"]', "Qt.AlignRight", "null", '"app.png"', '"#ff0000"', "-1", 'qsTr("x")']
+    docs, meta = [], []
+    for cls, p in props:
+        for v in values:
+            host = "QMenu" if cls == "QAction" else "QWidget"
+            doc = lambda b: "import qmluic.QtWidgets\n%s {\n  %s {\n    id: x\n%s  }\n}\n" % (host, cls, b)
+            docs.append(doc("    %s: %s\n" % (p, v)))
+            docs.append(doc(""))
+            meta.append((cls, p, v))
+    res = qml.run_docs(vh, docs, mode="generate")
+    silent = 0
+    for k, (cls, p, v) in enumerate(meta):
+        w, wo = res[2 * k], res[2 * k + 1]
+        ctx.count(("removal-matrix", cls, p, v), True)
+        if not isinstance(w, dict) or not isinstance(wo, dict) or "diags" not in w:
+            ctx.violation("pipeline gives no result on a constant binding", {"qml": docs[2 * k], "impl_output": str(w)[:500]})
+            continue
+        if w.get("ui") is not None and not w["diags"] and w.get("ui") == wo.get("ui") and w.get("header") == wo.get("header"):
+            silent += 1
+            ctx.violation("%s.%s: %s is accepted without diagnostic and leaves no trace: the outputs equal those of the document without the binding" % (cls, p, v),
+                          {"qml": docs[2 * k], "impl_output": w.get("ui"), "theorem_or_correspondence": "S: differential -- a binding is in the form, in the header, or diagnosed"})
+    ctx.coverage["removal_matrix"] = len(meta)
+
+
 def s_attached_matrix(ctx, vh):
     """every QLayout.* attached binding x every layout class x child kind, one binding per document, against the SAME document without it: an accepted
     binding that changes nothing in the form and draws no diagnostic was consumed silently"""
@@ -259,6 +290,7 @@ def run(ctx):
     ctx.coverage["accepted_documents"] = accepted
     s_nested_groups(ctx, vh, rng)
     s_attached_matrix(ctx, vh)
+    s_removal_matrix(ctx, vh)
     # ---- planted faults: diagnosed inside the planted text
     nf = 1800 if ctx.tier == "thorough" else 150
     froots, fdocs, fkinds = [], [], []
